@@ -659,6 +659,7 @@ Fixpoint pd_loop1 (maxrow snap_rows : Z) (t : list titem) (order : list Z) (st :
           let st := {| p_s := s; p_bad := p_bad st; p_cut := p_cut st; p_ro := ro |} in
           if negb (sel_at (items s) pos) then pd_loop1 maxrow snap_rows t rest st
           else if rows =? 0 then pd_loop1 maxrow snap_rows t rest st
+          else if ro + rows <=? 0 then pd_loop1 maxrow snap_rows t rest st   (* completely above the new page *)
           else
             let r :=
               if maxrow <=? ro then change_focus_sr s maxrow pos (maxrow - 1) CAbove (snap_rows + maxrow - ro - 1)
@@ -693,6 +694,7 @@ Fixpoint pd_loop2 (s : lb) (maxrow snap_rows fpos : Z) (t : list titem) (order :
       | Some (ro, pos, rows) =>
           if pos =? fpos then pd_loop2 s maxrow snap_rows fpos t rest ro
           else if rows =? 0 then pd_loop2 s maxrow snap_rows fpos t rest ro
+          else if ro + rows <=? 0 then pd_loop2 s maxrow snap_rows fpos t rest ro   (* completely above the new page *)
           else
             let '(sr, ro') :=
               if maxrow <=? ro then (snap_rows - (snap_rows + maxrow - ro - 1), maxrow - 1) else (snap_rows, ro) in
